@@ -478,7 +478,10 @@ impl<'a> Sim<'a> {
             let (fs_arc, now) = {
                 let world = self.world.borrow();
                 let host = world.hosts.get(&addr).expect("missing host");
-                (Arc::clone(&host.fs), host.timer.since_epoch())
+                // Not `since_epoch()`: we are outside of the host's runtime
+                // here, so `Instant::now()` would be the wall clock and the
+                // fs / io_uring clock would depend on real time.
+                (Arc::clone(&host.fs), host.timer.since_epoch_at_turn_start())
             };
             #[cfg(feature = "unstable-io_uring")]
             let iou_arc = {
